@@ -3,7 +3,7 @@ import numpy as np
 import scipy.linalg as sla
 from hypothesis import strategies as st
 
-from cvh import krylov_ref as KR, oracle
+from cvh import krylov_ref as KR, oracle, treeprop as TP
 
 ID = "C09"
 LEVEL = "exploration"
@@ -14,10 +14,11 @@ RULE = ("Hypothesis draws a controlled-spectrum operator: PD leaves Q diag(lam) 
         "Re(lam) > 0 and cond(X) <= 5 (real with conjugate pairs, or complex), singular PSD leaves (exp only), complex "
         "Hermitian; wrapped by Diagonal, BlockDiag with multiplicities, Identity, ScalarMul, Transpose, Adjoint, KronSum (exp) "
         "and Kronecker (pow/sqrt/isqrt), nested up to depth 2; a function in {exp, log, sqrt, isqrt, pow(a) for a in "
-        "{-2,-1,-.5,0,.5,1,2,3,9,10,2.5}, apply_unary(f) for f in {sin, x^2+1, 1/(1+x)}}; an algorithm in {omitted, Auto, Eig, "
+        "{-2,-1,-.5,0,.5,1,2,3,9,10,2.5}, apply_unary(f) for f in {sin, x^2+1, 1/(1+x), exp(ix)}}; an algorithm in {omitted, Auto, Eig, "
         "Eigh, Lanczos, Arnoldi} with max_iters in {n, n+3, default}; a 1-D or multi-column operand. Oracle: SciPy's "
         "Schur-based expm/logm/sqrtm/fractional_matrix_power/funm applied to the dense reference matrix, times the operand; "
-        "plus sqrt(A) applied twice == A v. Non-trivial: a structural rule, a Krylov algorithm, a non-Hermitian or complex "
+        "plus sqrt(A) applied twice == A v; in half of the cases the returned operator is first applied to an eigenvector or "
+        "a zero operand and must still be right for the drawn one. Non-trivial: a structural rule, a Krylov algorithm, a non-Hermitian or complex "
         "input, or a non-integer exponent.")
 ASSUMPTIONS = [
     "tolerance: |y - f(M) v| <= 1e-7 * cond(X) * |f(M)|_2 |v| (float64 payloads); Krylov algorithms are run to the full Krylov dimension with tol = 1e-12",
@@ -26,13 +27,12 @@ ASSUMPTIONS = [
 ]
 FUNCS = ["exp", "log", "sqrt", "isqrt", "pow", "pow", "apply_unary"]
 EXPS = [-2, -1, -0.5, 0, 0.5, 1, 2, 3, 9, 10, 2.5]
-UNARY = ["sin", "sq1", "inv1"]
+UNARY = ["sin", "sq1", "inv1", "cexp"]
 ALGS = ["omitted", "Auto", "Eig", "Eigh", "Lanczos", "Arnoldi"]
 AVOID = set()
 
 
 def configure(tier, opts):
-    from cvh import treeprop as TP
     AVOID.clear()
     AVOID.update(TP.load_avoid(ID, opts))
 
@@ -88,7 +88,9 @@ def cases(draw, tier):
         fn = "exp_nosing"  # open finding F-C09-arnoldi-singular-padded: no singular leaves under Arnoldi
     case = {"fn": fn, "alg": alg, "n": n, "tree": draw(spec(n, draw(st.sampled_from([0, 1, 1, 2])), fn, herm_only)),
             "vseed": draw(st.integers(0, 10**6)), "ncol": draw(st.sampled_from([0, 0, 1, 3])),
-            "max_iters": draw(st.sampled_from(["n", "n", "n+3", "default"])), "zero_col": draw(st.integers(1, 6)) == 1}
+            "max_iters": draw(st.sampled_from(["n", "n", "n+3", "default"])), "zero_col": draw(st.integers(1, 6)) == 1,
+            # the returned operator is applied to another operand first (an eigenvector: smallest Krylov space; or zero)
+            "pre": draw(st.sampled_from(["none", "none", "eigvec", "zero"]))}
     if fn == "exp_nosing":
         case["fn"] = fn = "exp"
     if fn == "pow":
@@ -201,10 +203,12 @@ def reference(case, M):
         return Mc @ Mc + np.eye(n)
     if f == "inv1":
         return np.linalg.inv(np.eye(n) + Mc)
+    if f == "cexp":  # a function with complex coefficients: f(A) is complex for a real operator
+        return sla.expm(1j * Mc.astype(np.complex128))
     raise ValueError(f)
 
 
-UNARY_FN = {"sin": np.sin, "sq1": lambda x: x**2 + 1, "inv1": lambda x: 1 / (1 + x)}
+UNARY_FN = {"sin": np.sin, "sq1": lambda x: x**2 + 1, "inv1": lambda x: 1 / (1 + x), "cexp": lambda x: np.exp(1j * x)}
 
 
 def make_alg(case, n):
@@ -258,6 +262,18 @@ def check(case, out):
             F = L.apply_unary(UNARY_FN[case["f"]], A, *extra)
         else:
             F = getattr(L, fn)(A, *extra)
+        from cola.ops import LinearOperator
+        if isinstance(F, LinearOperator) and TP.scalar_invalidated_annotations(F) & {"SelfAdjoint", "PSD"}:
+            # open finding F-C05-scalar (recorded under C05): f(1) * I with a complex f(1) reports SelfAdjoint, so the
+            # adjoint of the result is taken without conjugation
+            out.inconclusive += 1
+            out.label("contaminated:F-C05-scalar")
+            return
+        if case.get("pre", "none") != "none":
+            w, V = np.linalg.eig(M)
+            pre = (V[:, 0] if case["pre"] == "eigvec" else np.zeros(n)).astype(v.dtype if np.iscomplexobj(V) and np.iscomplexobj(v) else (np.complex128 if np.iscomplexobj(V[:, 0]) and case["pre"] == "eigvec" and np.abs(V[:, 0].imag).max() > 0 else v.dtype))
+            out.label("pre:" + case["pre"])
+            F @ (pre if v.ndim == 1 else np.stack([pre] * v.shape[1], axis=1))
         y = np.asarray(F @ v)
     except Exception as e:
         if oracle.is_contract_refusal(e):
